@@ -4,6 +4,7 @@ import (
 	"fmt"
 	"math"
 	"reflect"
+	"strings"
 )
 
 // Mutant is a fresh deep copy of a value with exactly one position changed.
@@ -177,6 +178,19 @@ func (w *mutWalk) walk(v reflect.Value, path string, inKey, gov, top bool, depth
 			}
 			v.SetString(string(s))
 			w.set("leaf-string-byte", path, d, inKey, gov)
+			return
+		}
+		// flip the case of the first ASCII letter: structurally a different string, but equal for a
+		// case-insensitive user method governing the position
+		if i := strings.IndexFunc(v.String(), func(r rune) bool { return r < 128 && (r|0x20) >= 'a' && (r|0x20) <= 'z' }); i >= 0 && w.hit() {
+			s := []byte(v.String())
+			d := 1
+			if s[i] >= 'a' {
+				d = -1
+			}
+			s[i] ^= 0x20
+			v.SetString(string(s))
+			w.set("leaf-string-case", path, d, inKey, gov)
 		}
 	case reflect.Pointer:
 		if w.hit() {
